@@ -3,4 +3,6 @@ import Driver.Gen
 import Driver.Session
 import Driver.Exec
 import Driver.Value
+import Driver.Tce
+import Driver.Extra
 import Driver.Main
